@@ -253,7 +253,7 @@ Section Scenarios2.
        balanced (snd (fst (fst r)))).
   Proof.
     intros W Wx. pose proof W as [Ws Wc].
-    destruct x as [y|ids|avail addr extra addr_b pct|p n amt addr extra coin|p n amt addr extra|p n amt|ok es|l|l]; cbn [run_op2].
+    destruct x as [y|ids|avail addr extra addr_b pct|p n amt addr extra coin|p n amt addr extra|p n amt|ok es|l|l|l]; cbn [run_op2].
     - (* old operations *)
       pose proof (run_op_spec utxos WU cfg y s o W Wx) as H. cbn zeta in H.
       destruct (run_op utxos y s o) as [[res s'] tx]. cbn [fst snd] in *. destruct H as [H1 [H2 H3]].
@@ -311,6 +311,9 @@ Section Scenarios2.
       apply wrap_spec; [|intros; discriminate]. split; [|apply pure_op_nobool].
       apply pure_op_wf; [exact W|]. intros s'. destruct (set_withdrawals _) as [ws| | |]; cbn [bind]; try discriminate.
       intros E'. injection E' as <-. apply (WF_fields cfg s); auto.
+    - (* proposals with identities *)
+      apply wrap_spec; [|intros; discriminate]. split; [|apply pure_op_nobool].
+      apply pure_op_wf; [exact W|]. intros s' E'. injection E' as <-. apply (WF_fields cfg s); auto.
   Qed.
 
   Theorem scenarios2_balanced l : forall s c rs s' c' body,
